@@ -51,3 +51,12 @@ void *drv_final_suspend(async_promise<int> *p) { auto fa = p->final_suspend(); r
 extern "C" {
 int drive_dbg1(int x) { future<int> src; auto p = src.get_promise(); future<int> f = co_susp(src, Guard()).start(); int r = f.pending(); { auto sp = p(x); sp.clear(); } return r; }
 }
+extern "C" {
+int drive_dbg2(int x) { future<int> src; auto p = src.get_promise(); future<int> f = co_susp(src, Guard()).start(); return f.pending(); }
+int drive_dbg3(int x) { future<int> src; auto p = src.get_promise(); co_awaiter<future<int>> aw(src); malleable_awaiter *m = nullptr; bool r = aw.await_suspend(std::noop_coroutine()); return r; }
+}
+extern "C" {
+int drive_dbg4(int x) { future<int> src; auto p = src.get_promise(); auto *aw = new co_awaiter<future<int>>(src); bool r = aw->await_suspend(std::noop_coroutine()); return r; }
+struct Holder { void *a, *b; async_promise<int> pr; co_awaiter<future<int>> aw; future<int> *f; int v; long idx; };
+int drive_dbg5(int x) { future<int> src; auto p = src.get_promise(); Holder *h = (Holder *)operator new(sizeof(Holder)); h->f = &src; new(&h->aw) co_awaiter<future<int>>(*h->f); bool r = h->aw.await_suspend(std::noop_coroutine()); return r; }
+}
